@@ -237,11 +237,16 @@ class Hist:
             conf = {"hash_name": d["hash"], "tmp_dir": self.w.p("tmp")}
             if d["state"]:
                 conf["state"] = self.st()
-            self.odbs[name] = self.w.odb("st" + name, d["kind"], **conf)
+            self.odbs[name] = self.w.odb(self.dirname(name), d["kind"], **conf)
         return self.odbs[name]
 
+    @staticmethod
+    def dirname(name):
+        # the legacy store lives under a path that happens to contain ".dir"
+        return "stL.dir-cache" if name == "L" else "st" + name
+
     def listing(self, name):
-        return self.w.listing("st" + name, STORES[name]["kind"])
+        return self.w.listing(self.dirname(name), STORES[name]["kind"])
 
     def tree_bytes(self, ti):
         return {rel: self.contents[ci] for rel, ci in self.trees[ti].items()}
@@ -256,7 +261,9 @@ class Hist:
         if self.ws_written.get(ti) != want:
             if os.path.exists(path):
                 REAL["shutil.rmtree"](path)
-            self.w.write_tree(path, want)
+            # a deterministic third of the files is executable (metadata must never reach an object's name)
+            execs = {rel for rel in want if (sum(rel.encode()) + ti) % 3 == 0}
+            self.w.write_tree(path, want, execs=execs)
             self.ws_written[ti] = dict(want)
             self.ctx.clock.advance(self.ctx.seam.order_rng.choice([0, 10**6, 10**9, 86400 * 10**9]))
         return path
@@ -373,7 +380,7 @@ def _listing_modes(h, s):
     if STORES[s]["kind"] == "remote":
         objs, tmps = h.listing(s)
         return objs, tmps
-    return model.raw_store_listing(h.w.p("st" + s), with_mode=True)
+    return model.raw_store_listing(h.w.p(h.dirname(s)), with_mode=True)
 
 
 def _transient_ok(h, s, oid, data, faulted):
@@ -382,7 +389,7 @@ def _transient_ok(h, s, oid, data, faulted):
     # (reflink window) only when a fault was injected in this very operation
     if faulted and STORES[s]["kind"] != "remote" and len(data) == 0:
         try:
-            mode = REAL["os.lstat"](os.path.join(h.w.p("st" + s), oid[:2], oid[2:])).st_mode & 0o777
+            mode = REAL["os.lstat"](os.path.join(h.w.p(h.dirname(s)), oid[:2], oid[2:])).st_mode & 0o777
         except OSError:
             return None
         if mode != 0o444:
@@ -724,7 +731,7 @@ def op_evict(h, op, n):
     if op.get("prefer_dir") and any(o.endswith(".dir") for o in cand):
         cand = [o for o in cand if o.endswith(".dir")]
     o = cand[int(op["pick"] * len(cand)) % len(cand)]
-    h.w.raw_rm("st" + s, STORES[s]["kind"], o)
+    h.w.raw_rm(h.dirname(s), STORES[s]["kind"], o)
     h.complete.get(s, {}).clear()
     return None
 
